@@ -982,17 +982,29 @@ fn gate_call_expr_to_asg_stmt(
 }
 
 fn call_expr_to_asg_texpr(call_expr: synast::CallExpr, context: &mut Context) -> asg::TExpr {
-    let param_list = call_expr
-        .arg_list()
-        .map(|ex| expression_list_to_asg_texpr(ex.expression_list().unwrap(), context));
-    let subroutine_id = call_expr.identifier();
-    let subroutine_name = call_expr.identifier().unwrap().string();
+    let param_list = call_expr.arg_list().map(|ex| match ex.expression_list() {
+        Some(expression_list) => expression_list_to_asg_texpr(expression_list, context),
+        None => Vec::new(),
+    });
+    // The callee must be an identifier. Calling the result of another expression is not supported.
+    let Some(subroutine_id) = call_expr.identifier() else {
+        context.insert_error(NotImplementedError, &call_expr);
+        return asg::TExpr::new(asg::Expr::NullExpr, Type::Undefined);
+    };
+    let subroutine_name = subroutine_id.string();
     let (symbol_result, call_type) = context
-        .lookup_symbol(subroutine_name.as_ref(), subroutine_id.as_ref().unwrap())
+        .lookup_symbol(subroutine_name.as_ref(), &subroutine_id)
         .as_tuple();
     let def_type = match call_type {
         Type::SubroutineDef(def_type) => def_type,
-        _ => panic!("programming error: expected Type::Def variant"),
+        _ => {
+            // If the lookup failed, then `UndefVarError` has already been logged.
+            // Otherwise, the symbol is not a subroutine.
+            if symbol_result.is_ok() {
+                context.insert_error(IncompatibleTypesError, &subroutine_id);
+            }
+            return asg::SubroutineCall::new(symbol_result, param_list).to_texpr(Type::Undefined);
+        }
     };
     let expected_num_params = def_type.num_params;
     // number of params actually passed in call.
@@ -1001,7 +1013,10 @@ fn call_expr_to_asg_texpr(call_expr: synast::CallExpr, context: &mut Context) ->
         None => 0,
     };
     if expected_num_params != num_params {
-        context.insert_error(NumDefParamsError, &call_expr.arg_list().unwrap());
+        match call_expr.arg_list() {
+            Some(arg_list) => context.insert_error(NumDefParamsError, &arg_list),
+            None => context.insert_error(NumDefParamsError, &call_expr),
+        }
     }
     let typ = def_type.return_type;
     asg::SubroutineCall::new(symbol_result, param_list).to_texpr(*typ)
